@@ -174,6 +174,40 @@ fn v_cases(tier: Tier) -> Vec<VCase> {
             }
         }
     }
+    // cross-radix normalisation with many limbs (the extract-digit / multiply-by-power-of-two kernels are only
+    // reached when the radices differ, and garbage in a low limb needs several result limbs to survive)
+    let pairs: Vec<(usize, usize)> = tier.pick(
+        vec![(12, 10), (10, 12), (17, 12), (12, 17), (3, 2), (5, 7), (31, 17), (50, 12)],
+        vec![(12, 10), (10, 12), (17, 12), (12, 17), (3, 2), (2, 3), (5, 7), (7, 5), (31, 17), (17, 31), (50, 12), (12, 50), (52, 19), (4, 13)],
+    );
+    for (b, b_out) in pairs {
+        for &n in &[8usize, 12, 16] {
+            for rs in tier.pick(vec![1usize, 2, 4, 6, 7], (1..=8).collect()) {
+                for a_s in tier.pick(vec![1usize, 3, 6, 7], (1..=8).collect()) {
+                    let bi = b as i64;
+                    for p in [0i64, 1, -1, bi - 1, -(bi - 1), bi, -bi, bi + 1] {
+                        for val in [0u8, 1] {
+                            out.push(VCase {
+                                op: "normalize".into(),
+                                n,
+                                b,
+                                cols: 1,
+                                rs,
+                                a_s,
+                                bs: 1,
+                                rc: 0,
+                                ac: 0,
+                                bc: 0,
+                                p,
+                                b_out,
+                                val,
+                            });
+                        }
+                    }
+                }
+            }
+        }
+    }
     out
 }
 
